@@ -221,6 +221,10 @@ func (rt *runtime) cmplEvaluateNodeForInStatement(node *nodeForInStatement) Valu
 			if _, skip := shadowed[name]; skip {
 				return true
 			}
+			// A name is visited at most once (12.6.4), even when the body deletes the
+			// property just visited and an object further along the chain has one of
+			// the same name.
+			shadowed[name] = struct{}{}
 			into := rt.cmplEvaluateNodeExpression(into)
 			// In the case of: for (var abc in def) ...
 			if into.reference() == nil {
